@@ -2,6 +2,7 @@ package main
 
 import (
 	"go/ast"
+	"go/token"
 	"go/types"
 	"sort"
 	"strings"
@@ -270,4 +271,201 @@ func runFilterPushdownKept(c *Ctx, rule string) {
 	if n < 3 {
 		c.Undecided(rule, "optimizeSourcePaths", "fewer than 3 rebuild sites found ("+sprint(n)+")")
 	}
+}
+
+// ---- C07-D9 / C08-N2: whoever uses a sort's direction uses all of it.
+//
+// A dag.Sort's effective order is Args[i].Order flipped by Reverse, and its null placement is
+// NullsFirst relative to that order.  A function of the optimizer that reads the Order of a
+// sort's argument without reading Reverse, or that turns a sort into a dag.Merge without
+// consulting NullsFirst, builds a plan that orders differently from the sort it replaces.
+func runSortFieldPairing(c *Ctx, ruleRev, ruleNulls string) {
+	p := c.P
+	c.Rule(ruleRev, "sort direction is read whole: every function of compiler/optimizer that reads Args[i].Order of a dag.Sort also reads that sort's Reverse flag (itself or through a callee it hands the sort to)")
+	c.Rule(ruleNulls, "a sort is replaced by a merge only after its null placement was consulted: every function of compiler/optimizer that builds a dag.Merge in a function that handles a *dag.Sort reads the sort's NullsFirst (itself or through a callee it hands the sort to)")
+	// which Sort fields does fn read, directly or through callees that receive a *dag.Sort?
+	var readsOf func(fn *ssa.Function, depth int, seen map[*ssa.Function]bool) map[string]bool
+	readsOf = func(fn *ssa.Function, depth int, seen map[*ssa.Function]bool) map[string]bool {
+		out := map[string]bool{}
+		if seen[fn] || depth > 3 {
+			return out
+		}
+		seen[fn] = true
+		for _, b := range fn.Blocks {
+			for _, in := range b.Instrs {
+				switch x := in.(type) {
+				case *ssa.FieldAddr:
+					if namedOf(x.X.Type()) == "compiler/ast/dag.Sort" {
+						out["Sort."+fieldName(x.X.Type(), x.Field)] = true
+					}
+					if namedOf(x.X.Type()) == "compiler/ast/dag.SortExpr" {
+						out["SortExpr."+fieldName(x.X.Type(), x.Field)] = true
+					}
+				case *ssa.Field:
+					if namedOf(x.X.Type()) == "compiler/ast/dag.SortExpr" {
+						out["SortExpr."+fieldName(x.X.Type(), x.Field)] = true
+					}
+				case ssa.CallInstruction:
+					callee := x.Common().StaticCallee()
+					if callee == nil || callee.Blocks == nil || p.PkgOf(callee) != "compiler/optimizer" {
+						continue
+					}
+					passes := false
+					for _, a := range x.Common().Args {
+						if namedOf(a.Type()) == "compiler/ast/dag.Sort" {
+							passes = true
+						}
+					}
+					if passes {
+						for k := range readsOf(callee, depth+1, seen) {
+							out["via:"+k] = true
+						}
+					}
+				}
+			}
+		}
+		return out
+	}
+	has := func(m map[string]bool, k string) bool { return m[k] || m["via:"+k] || m["via:via:"+k] || m["via:via:via:"+k] }
+	nRev, nNulls := 0, 0
+	for _, fn := range p.FuncsIn("compiler/optimizer") {
+		if fn.Parent() != nil {
+			continue
+		}
+		direct := map[string]bool{}
+		buildsMerge := false
+		var mergePos, orderPos token.Pos
+		for _, b := range fn.Blocks {
+			for _, in := range b.Instrs {
+				switch x := in.(type) {
+				case *ssa.FieldAddr:
+					if namedOf(x.X.Type()) == "compiler/ast/dag.Sort" {
+						direct["Sort."+fieldName(x.X.Type(), x.Field)] = true
+					}
+					if namedOf(x.X.Type()) == "compiler/ast/dag.SortExpr" && fieldName(x.X.Type(), x.Field) == "Order" {
+						direct["SortExpr.Order"] = true
+						orderPos = x.Pos()
+					}
+				case *ssa.Alloc:
+					if pt, ok := x.Type().Underlying().(*types.Pointer); ok && namedOf(pt.Elem()) == "compiler/ast/dag.Merge" {
+						buildsMerge = true
+						mergePos = x.Pos()
+					}
+				}
+			}
+		}
+		all := readsOf(fn, 0, map[*ssa.Function]bool{})
+		if direct["SortExpr.Order"] && direct["Sort.Args"] {
+			// value-level: an Order stored into a dag.Merge must depend on Reverse
+			for _, b := range fn.Blocks {
+				for _, in := range b.Instrs {
+					st, ok := in.(*ssa.Store)
+					if !ok {
+						continue
+					}
+					fa, ok := st.Addr.(*ssa.FieldAddr)
+					if !ok || namedOf(fa.X.Type()) != "compiler/ast/dag.Merge" || fieldName(fa.X.Type(), fa.Field) != "Order" {
+						continue
+					}
+					fromSort := dependsOnCtl(st.Val, func(v ssa.Value) bool {
+						f, ok := v.(*ssa.FieldAddr)
+						return ok && namedOf(f.X.Type()) == "compiler/ast/dag.SortExpr" && fieldName(f.X.Type(), f.Field) == "Order"
+					})
+					if !fromSort {
+						continue
+					}
+					nRev++
+					construct := fnName(fn) + " stores a sort argument's Order into dag.Merge.Order"
+					if dependsOnCtl(st.Val, func(v ssa.Value) bool {
+						f, ok := v.(*ssa.FieldAddr)
+						return ok && namedOf(f.X.Type()) == "compiler/ast/dag.Sort" && fieldName(f.X.Type(), f.Field) == "Reverse"
+					}) {
+						c.OK(ruleRev, construct, st.Pos(), "the stored order depends on Reverse")
+					} else {
+						c.Fail(ruleRev, construct, st.Pos(), "the merge order is the argument's Order regardless of the sort's Reverse flag: after `sort -r` is split into per-leg sorts and a merge, the merge runs in the opposite direction and the output is not sorted")
+					}
+				}
+			}
+			nRev++
+			construct := fnName(fn) + " reads the Order of a sort argument"
+			if has(all, "Sort.Reverse") {
+				c.OK(ruleRev, construct, orderPos, "Reverse is read as well")
+			} else {
+				c.Fail(ruleRev, construct, orderPos, "the argument's Order is used without the sort's Reverse flag: for `sort -r` the derived order (merge order, propagated sort key) is the opposite of what the sort produces, so the optimized plan returns rows in another order")
+			}
+		}
+		if buildsMerge && direct["Sort.Args"] {
+			nNulls++
+			construct := fnName(fn) + " builds a dag.Merge from a dag.Sort"
+			if has(all, "Sort.NullsFirst") {
+				c.OK(ruleNulls, construct, mergePos, "NullsFirst is consulted")
+			} else {
+				c.Fail(ruleNulls, construct, mergePos, "a sort is split into per-leg sorts plus a merge without looking at its null placement: the merge orders nulls as the maximum value, the sort may not (`sort -nulls first`, `sort -r`), so with more than one leg the output is not sorted")
+			}
+		}
+	}
+	if nRev < 2 {
+		c.Undecided(ruleRev, "compiler/optimizer", "fewer than 2 readers of a sort argument's Order ("+sprint(nRev)+")")
+	}
+	if nNulls < 1 {
+		c.Undecided(ruleNulls, "compiler/optimizer", "no function builds a merge from a sort")
+	}
+}
+
+// dependsOnCtl is dependsOn extended with an approximation of control dependence: the value of a
+// phi also depends on the conditions that select among its edges.
+func dependsOnCtl(v ssa.Value, pred func(ssa.Value) bool) bool {
+	seen := map[ssa.Value]bool{}
+	var visit func(v ssa.Value) bool
+	visit = func(v ssa.Value) bool {
+		if v == nil || seen[v] {
+			return false
+		}
+		seen[v] = true
+		if pred(v) {
+			return true
+		}
+		in, ok := v.(ssa.Instruction)
+		if !ok {
+			return false
+		}
+		for _, op := range in.Operands(nil) {
+			if op != nil && *op != nil && visit(*op) {
+				return true
+			}
+		}
+		if phi, ok := v.(*ssa.Phi); ok {
+			stop := phi.Block().Idom()
+			for _, pb := range phi.Block().Preds {
+				for b := pb; b != nil; b = b.Idom() {
+					if len(b.Instrs) > 0 {
+						if iff, ok := b.Instrs[len(b.Instrs)-1].(*ssa.If); ok && visit(iff.Cond) {
+							return true
+						}
+					}
+					if b == stop {
+						break
+					}
+				}
+			}
+		}
+		if a, ok := v.(*ssa.Alloc); ok {
+			for _, r := range *a.Referrers() {
+				switch x := r.(type) {
+				case *ssa.Store:
+					if x.Addr == a && visit(x.Val) {
+						return true
+					}
+				case *ssa.FieldAddr:
+					for _, rr := range *x.Referrers() {
+						if st, ok := rr.(*ssa.Store); ok && st.Addr == ssa.Value(x) && visit(st.Val) {
+							return true
+						}
+					}
+				}
+			}
+		}
+		return false
+	}
+	return visit(v)
 }
